@@ -372,6 +372,7 @@ fn scripted_case(kind: KindTag, world: usize, radius_factor: f64, seq: &[usize])
         empty_starts: false,
         query_cap: 400_000,
         world2: None,
+        space2: None,
     }
 }
 
